@@ -57,6 +57,10 @@ def cases(tier, seed):
             out.append({"dedupe_cli": True, "opt": opt, "cwd": cwd})
     n = 32 if tier == "quick" else 256
     out += [{"cli": True, "tokens": 2 if tier == "quick" else 3, "shard": "%d/%d" % (i, n)} for i in range(n)]
+    # the same cross-check started from a working directory whose NAME is full of glob syntax: the directory that
+    # anchors a relative pattern is text, not a pattern
+    out += [{"cli": True, "tokens": 2 if tier == "quick" else 3, "shard": "%d/%d" % (i, n), "cwd_name": "w[a-c]{d,e}?*x!(y)"}
+            for i in range(0, n, 4 if tier == "quick" else 2)]
     return out
 
 
@@ -107,7 +111,11 @@ def evaluate(case):
         return evaluate_dedupe_cli(case)
     if case.get("cli"):
         with C.Scratch() as sc:
-            args = ["glob", "--cli", "--fclones", C.FCLONES, "--tree", sc.tree, "--tokens", str(case["tokens"])]
+            tree = sc.tree
+            if case.get("cwd_name"):
+                tree = os.path.join(sc.tree, case["cwd_name"])
+                os.makedirs(tree)
+            args = ["glob", "--cli", "--fclones", C.FCLONES, "--tree", tree, "--tokens", str(case["tokens"])]
             if "one" in case:
                 viol, summ = U.run_unit(args + ["--one", case["one"]])
             else:
